@@ -555,6 +555,7 @@ def _read_csv(interp, args, kwargs, node):
             return VStr(x)
     fr = VObj("DataFrame", z3.Const(f"csv:{_os.path.basename(path)}", OBJ))
     fr.index_list = VList(ConcreteSeq([lab(r[0]) for r in body]))
+    fr.index_list.index_of = f"index:{_os.path.basename(path)}"
     fr.columns_list = [h for h in header[1:]]
     fr.nrows_concrete = len(body)
     fr.body = body
@@ -590,3 +591,251 @@ def _consecutive_from_zero(interp, args, kwargs, node):
 def _is_shipped_table(interp, args, kwargs, node):
     v, name = args
     return VBool(isinstance(v, VObj) and v.term is not None and str(v.term) == f"csv:{concrete_str(name)}")
+
+
+# ---- frames with named columns: copy / rename / columns / column assignment / Series.map ---------------------------------
+# (C18 standardize_dataframe).  Cells are strings; a MISSING cell (None / NaN) is modelled as the distinguished value ''.
+
+def _new_frame(interp, src, cols):
+    fr = VObj("DataFrame")
+    fr.cols = list(cols)
+    fr.sid = getattr(src, "sid", "df")
+    fr.nrows = getattr(src, "nrows", None)
+    fr.index_id = getattr(src, "index_id", getattr(src, "sid", "df"))      # row labels are carried along
+    return interp.born(fr)
+
+
+@method("DataFrame", "copy")
+def _df_copy(interp, sv, args, kwargs, node):
+    if getattr(sv, "cols", None) is None:
+        return interp.born(E.opaque(interp, "DataFrame.copy", [sv] + args, kwargs, "DataFrame"))
+    if "deep" in kwargs:
+        raise Unsupported("DataFrame.copy(deep=...)")
+    interp.ctx.assumed.add("extern:DataFrame.copy() returns a NEW frame with the same index, columns and cells")
+    return _new_frame(interp, sv, sv.cols)
+
+
+@method("DataFrame", "rename")
+def _df_rename(interp, sv, args, kwargs, node):
+    mapper = kwargs.get("columns")
+    if getattr(sv, "cols", None) is None or mapper is None or args or set(kwargs) - {"columns"}:
+        raise Unsupported("DataFrame.rename is modelled for rename(columns=mapping) on frames with known columns")
+    if not (isinstance(mapper, VDict) and mapper.items is not None):
+        raise Unsupported("rename(columns=<symbolic mapping>)")
+    m = {}
+    for k, v in mapper.items:
+        ks, vs = concrete_str(k), concrete_str(v)
+        if ks is None or vs is None:
+            raise Unsupported("rename(columns=...) with symbolic names")
+        m[ks] = vs
+    interp.ctx.assumed.add("extern:DataFrame.rename(columns=m) returns a NEW frame whose column c is called m.get(c, c); cells, order and index unchanged")
+    return _new_frame(interp, sv, [(m.get(n, n), c) for n, c in sv.cols])
+
+
+def _frame_columns_attr(interp, base, attr, node):
+    if isinstance(base, VObj) and getattr(base, "cols", None) is not None and attr == "columns":
+        return VList(ConcreteSeq([VStr(n) for n, _ in base.cols]), "Index")
+    return None
+
+
+E.HOOKS["getattr"].insert(0, _frame_columns_attr)
+
+
+def _frame_setitem(interp, base, idx, v, node):
+    if isinstance(base, VObj) and getattr(base, "cols", None) is not None and isinstance(idx, VStr):
+        name = concrete_str(idx)
+        if name is None:
+            raise Unsupported("frame[<symbolic name>] = ...")
+        if not (isinstance(v, VList) and isinstance(v.content, SymSeq)):
+            raise Unsupported("frame[name] = <not a column>")
+        interp.check_mutable_target(base, node, f"[{name!r}] =")
+        names = [n for n, _ in base.cols]
+        if name in names:
+            base.cols[names.index(name)] = (name, v)
+        else:
+            base.cols.append((name, v))
+        return True
+    return None
+
+
+E.HOOKS["setitem"].insert(0, _frame_setitem)
+
+
+@method("Series", "map")
+def _series_map(interp, sv, args, kwargs, node):
+    """Series.map(f): the Series of f(cell) for every cell in order, same index.  f is evaluated ONCE on an arbitrary cell (all its
+    paths), the result is the point-wise definition; a result None (missing) is the distinguished string ''."""
+    f = args[0] if args else kwargs.get("arg")
+    if not (isinstance(sv.content, SymSeq) and isinstance(f, VFunc)) or set(kwargs) - {"arg"}:
+        raise Unsupported("Series.map argument form")
+    ctx = interp.ctx
+    interp.ctx.assumed.add("extern:Series.map(f) applies f to every cell independently, keeping order and index")
+    from .ctx import explore_sub
+    x = ctx.fresh("cell", z3.StringSort())
+    outs = explore_sub(ctx, lambda: interp.call(f, [VStr(x)], {}, node))
+    if not outs:
+        raise Unsupported("Series.map: the mapped function has no returning path")
+    branches = []
+    for delta, _obl, res in outs:
+        cond = z3.And(*[t for t, lab in delta if lab is None]) if any(lab is None for _, lab in delta) else z3.BoolVal(True)
+        if isinstance(res, VNone):
+            val = z3.StringVal("")
+        elif isinstance(res, VStr):
+            val = res.term
+        else:
+            raise Unsupported(f"Series.map: mapped function returns {res!r}")
+        branches.append((cond, val))
+    term = branches[-1][1]
+    for cond, val in reversed(branches[:-1]):
+        term = z3.If(cond, val, term)
+    r = VList(SymSeq(sv.content.length, lambda k: VStr(z3.substitute(term, (x, sv.content.at(k).term))), T.Str), "Series")
+    r.labels = getattr(sv, "labels", None)
+    r.sid = structural_sid(VStr(z3.substitute(term, (x, sv.content.at(z3.Int("k!canon")).term))), sv.content.length)
+    return interp.born(r)
+
+
+@extern("pandas.isna")
+def _pd_isna(interp, args, kwargs, node):
+    v = args[0]
+    if isinstance(v, VStr):
+        interp.ctx.assumed.add("model: a missing table cell (None / NaN) is the distinguished string ''; pandas.isna(cell) <=> cell == ''")
+        return VBool(v.term == z3.StringVal(""))
+    if isinstance(v, (VNone, VNan)):
+        return VBool(True)
+    if isinstance(v, (VInt, VReal, VBool)):
+        return VBool(False)
+    raise Unsupported(f"pandas.isna of {v!r}")
+
+
+# tidytcells: uninterpreted pure functions of the cell and of the options that can change the result
+def _tt(name, *specs):
+    sorts = [z3.StringSort()] + [s for _, s in specs]
+    f = z3.Function(name, *(sorts + [z3.StringSort()]))
+
+    def h(interp, args, kwargs, node):
+        if args:
+            raise Unsupported(f"{name}: positional arguments")
+        first = kwargs.get("seq") if "seq" in kwargs else kwargs.get("gene")
+        if not isinstance(first, VStr):
+            raise Unsupported(f"{name}: cell argument")
+        ts = [first.term]
+        for kw, so in specs:
+            v = kwargs.get(kw)
+            if v is None:
+                raise Unsupported(f"{name}: option {kw} not passed (its default is not modelled)")
+            ts.append(interp.as_bool_term(v) if so == z3.BoolSort() else v.term)
+        kwargs.get("suppress_warnings")        # looked at: does not change the result
+        if name == "tt.aa.standardize":
+            of = kwargs.get("on_fail")
+            if of is None or concrete_str(of) != "keep":
+                raise Unsupported("tt.aa.standardize: only on_fail='keep' is modelled")
+        interp.ctx.assumed.add(f"extern:{name} is a deterministic function of the cell and its options (None on failure = missing = '')")
+        return VStr(f(*ts))
+    return h, f
+
+
+_TT = {}
+for _nm, _ext, _specs in (
+        ("tt.junction.standardize", "tidytcells.junction.standardize", [("strict", z3.BoolSort())]),
+        ("tt.tr.standardize", "tidytcells.tr.standardize", [("species", z3.StringSort()), ("enforce_functional", z3.BoolSort()), ("precision", z3.StringSort())]),
+        ("tt.mh.standardize", "tidytcells.mh.standardize", [("species", z3.StringSort()), ("precision", z3.StringSort())]),
+        ("tt.aa.standardize", "tidytcells.aa.standardize", [])):
+    _h, _f = _tt(_nm, *_specs)
+    E.EXTERNS[_ext] = _h
+    _TT[_nm] = _f
+
+
+def _tt_spec(name):
+    def sp(interp, args, kwargs, node):
+        f = _TT[name]
+        ts = []
+        for i, a in enumerate(args):
+            ts.append(interp.as_bool_term(a) if f.domain(i) == z3.BoolSort() else a.term)
+        return VStr(f(*ts))
+    return sp
+
+
+S.SPEC["tt_junction"] = _tt_spec("tt.junction.standardize")      # tt_junction(cell, strict)
+S.SPEC["tt_tr"] = _tt_spec("tt.tr.standardize")                  # tt_tr(cell, species, enforce_functional, precision)
+S.SPEC["tt_mh"] = _tt_spec("tt.mh.standardize")                  # tt_mh(cell, species, precision)
+S.SPEC["tt_aa_keep"] = _tt_spec("tt.aa.standardize")             # tt_aa_keep(cell)
+
+
+@S.spec("table_cell")
+def _cell_spec(interp, args, kwargs, node):
+    """table_cell(table, column name, i): the cell as a string ('' = missing)"""
+    t, c, i = args
+    return dict(t.cols)[concrete_str(c)].content.at(to_int(i))
+
+
+@S.spec("column_names")
+def _column_names(interp, args, kwargs, node):
+    return VList(ConcreteSeq([VStr(n) for n, _ in args[0].cols]))
+
+
+@S.spec("same_index")
+def _same_index(interp, args, kwargs, node):
+    a, b = args
+    return VBool(getattr(a, "index_id", getattr(a, "sid", 1)) == getattr(b, "index_id", getattr(b, "sid", 2)))
+
+
+# ---- pandas.merge / functools.reduce (C18 multimerge) ---------------------------------------------------------------
+_MERGE_SIG = ["left", "right", "how", "on", "left_on", "right_on", "left_index", "right_index", "sort", "suffixes", "copy", "indicator", "validate"]
+_MERGE_DEFAULTS = {"how": VStr("inner"), "on": NONE, "left_index": VBool(False), "right_index": VBool(False)}
+
+
+@extern("pandas.merge")
+def _pd_merge(interp, args, kwargs, node):
+    """pandas.merge(left, right, how='inner', on=None, left_on=None, right_on=None, left_index=False, right_index=False, ...):
+    arguments are bound like Python binds them against this signature (a keyword that repeats a positional argument is a
+    TypeError); the result is an opaque deterministic function of (left, right, how, on, left_index, right_index)."""
+    bound = {}
+    if len(args) > len(_MERGE_SIG):
+        raise_py(interp, "TypeError", "merge() takes at most 13 positional arguments", node)
+    for name, a in zip(_MERGE_SIG, args):
+        bound[name] = a
+    for k in list(kwargs.keys()):
+        if k not in _MERGE_SIG:
+            raise_py(interp, "TypeError", f"merge() got an unexpected keyword argument '{k}'", node)
+        if k in bound:
+            raise_py(interp, "TypeError", f"merge() got multiple values for argument '{k}'", node)
+        bound[k] = kwargs[k]
+    if "left" not in bound or "right" not in bound:
+        raise_py(interp, "TypeError", "merge() missing required positional arguments", node)
+    extra = set(bound) - {"left", "right", "how", "on", "left_index", "right_index"}
+    if extra:
+        raise Unsupported(f"pandas.merge options {sorted(extra)} are not modelled")
+    full = {k: bound.get(k, _MERGE_DEFAULTS.get(k)) for k in ("how", "on", "left_index", "right_index")}
+    return interp.born(E.opaque(interp, "pandas.merge", [bound["left"], bound["right"]], full, "DataFrame"))
+
+
+@extern("functools.reduce")
+def _reduce(interp, args, kwargs, node):
+    f, seq_ = args[0], args[1]
+    items = interp.concrete_iter(seq_) if isinstance(seq_, (VList, VTuple)) else None
+    if items is None or len(args) > 2 or kwargs:
+        raise Unsupported("functools.reduce over a sequence of symbolic length / with an initial value")
+    items = list(items)
+    if not items:
+        raise_py(interp, "TypeError", "reduce() of empty iterable with no initial value", node)
+    acc = items[0]
+    for x in items[1:]:
+        acc = interp.call(f, [acc, x], {}, node)
+    return acc
+
+
+S.SPEC["fold_left"] = lambda interp, args, kwargs, node: _reduce(interp, args, kwargs, node)
+
+
+@method("DataFrame", "set_index")
+def _df_set_index(interp, sv, args, kwargs, node):
+    if getattr(sv, "cols", None) is not None or len(args) != 1 or kwargs:
+        raise Unsupported("DataFrame.set_index form")
+    return interp.born(E.opaque(interp, "DataFrame.set_index", [sv] + args, None, "DataFrame"))
+
+
+@method("DataFrame", "add_suffix")
+def _df_add_suffix(interp, sv, args, kwargs, node):
+    if getattr(sv, "cols", None) is not None or len(args) != 1 or kwargs:
+        raise Unsupported("DataFrame.add_suffix form")
+    return interp.born(E.opaque(interp, "DataFrame.add_suffix", [sv] + args, None, "DataFrame"))
